@@ -256,30 +256,25 @@ Qed.
 Lemma pow2_log2_le v : 1 <= v -> 2 ^ Z.log2 v <= v < 2 ^ (Z.log2 v + 1).
 Proof. intros H. pose proof (Z.log2_spec v ltac:(lia)). rewrite Z.add_1_r. lia. Qed.
 
-(* the wrap-around guard of getFromLLOCache is complete: an accepted request was computed without any wrap *)
-Lemma llo_guard_complete_proof size e a :
-  1 <= size < W64 -> 0 <= e <= 63 ->
-  llo_alloc_size size (2 ^ e) = Some a ->
-  size + mal_headersSize + 2 ^ e < W64 /\ size + mal_headersSize + 2 ^ e <= a < W64.
+(* core of every "aligned size below request => wrapped" test: for a request of [size] bytes plus [k] bytes of
+   overhead (k <= 2^63 + 104), if alignToBin of the 64-bit sum is not below size, then neither the sum nor the
+   rounding wrapped around *)
+Lemma atb_guard size k :
+  1 <= size < W64 -> 0 <= k <= 2 ^ 63 + 104 ->
+  (align_to_bin (w64 (size + k)) <? size) = false ->
+  size + k < W64 /\ size + k <= align_to_bin (w64 (size + k)) < W64.
 Proof.
-  intros Hs He H. unfold llo_alloc_size in H.
-  set (al := 2 ^ e) in *.
-  assert (Hal : 1 <= al <= 2 ^ 63).
-  { unfold al. split; [assert (0 < 2 ^ e) by (apply Z.pow_pos_nonneg; lia); lia|apply Z.pow_le_mono_r; lia]. }
-  change mal_headersSize with 104 in *. change W64 with (2 ^ 64) in *.
-  set (S := size + 104 + al) in *.
-  destruct (align_to_bin (w64 S) <? size) eqn:Eg; [discriminate|]. inv H.
-  assert (Hw : forall x, 0 <= x -> w64 x = x mod 2 ^ 64) by reflexivity.
+  intros Hs Hk Eg.
+  change W64 with (2 ^ 64) in *.
+  set (S := size + k) in *.
   unfold align_to_bin in *. change mal_maxLargeSize with 8388608 in *. change mal_largeCacheStep with 8192 in *.
   change mal_hugeStepFactorExp with 3 in *. unfold w64 in *. change W64 with (2 ^ 64) in *.
   set (v := S mod 2 ^ 64) in *.
   assert (Hv : 0 <= v < 2 ^ 64) by (apply Z.mod_pos_bound; lia).
-  (* upper bound on the aligned value before reduction *)
   assert (Hup : forall step, 0 < step -> v <= align_up v step < v + step).
   { intros step Hst. destruct (align_up_spec v step Hst) as [? _]. lia. }
   destruct (Z_lt_le_dec S (2 ^ 64)) as [Hnw|Hwr].
-  - (* the sum itself does not wrap *)
-    assert (Hvs : v = S) by (unfold v; apply Z.mod_small; lia).
+  - assert (Hvs : v = S) by (unfold v; apply Z.mod_small; lia).
     split; [lia|].
     destruct (v <? 8388608) eqn:Ev.
     + pose proof (Hup 8192 ltac:(lia)) as Hb. rewrite Z.mod_small in Eg |- * by lia. lia.
@@ -297,20 +292,18 @@ Proof.
       destruct (align_up_spec v step Hst) as [_ Hm].
       destruct (Z_lt_le_dec (align_up v step) (2 ^ 64)) as [Hok|Hbad].
       * rewrite Z.mod_small in Eg |- * by lia. lia.
-      * (* the rounding wraps to 0 < size: refused, contradiction *)
-        exfalso.
+      * exfalso.
         assert (Hdiv : (step | 2 ^ 64)).
         { exists (2 ^ (64 - (Z.log2 v - 3))). unfold step. rewrite <- Z.pow_add_r by lia. f_equal. lia. }
         assert (Heq : align_up v step = 2 ^ 64).
         { apply Z.le_antisymm; [|lia].
           apply (multiple_le step); [lia | exact Hm | apply Z.mod_divide; [lia|exact Hdiv] | lia]. }
         rewrite Heq in Eg. rewrite Z.mod_same in Eg by lia. lia.
-  - (* the sum wraps: the guard must have refused *)
-    exfalso.
-    assert (HS : S < 2 ^ 64 + 2 ^ 64) by lia.
+  - exfalso.
+    assert (HS : S < 2 ^ 64 + 2 ^ 64) by (unfold S; lia).
     assert (Hvs : v = S - 2 ^ 64).
     { unfold v. symmetry. apply Z.mod_unique with (q := 1); lia. }
-    assert (Hvlt : v + 2 ^ 63 - 104 <= size) by lia.
+    assert (Hvlt : v + 2 ^ 63 - 104 <= size) by (unfold S in *; lia).
     destruct (v <? 8388608) eqn:Ev.
     + pose proof (Hup 8192 ltac:(lia)) as Hb. rewrite Z.mod_small in Eg by lia. lia.
     + assert (Hv1 : 1 <= v) by lia.
@@ -321,10 +314,72 @@ Proof.
       assert (Hst8 : 8 * step = 2 ^ Z.log2 v).
       { unfold step. change 8 with (2 ^ 3). rewrite <- Z.pow_add_r by lia. f_equal. lia. }
       pose proof (Hup step Hst) as Hb.
-      assert (Hvb : v < 2 ^ 63 + 104) by lia.
+      assert (Hvb : v < 2 ^ 63 + 104) by (unfold S in *; lia).
       assert (align_up v step < 2 ^ 64) by lia.
       rewrite Z.mod_small in Eg by lia. lia.
 Qed.
+
+(* the wrap-around guard of getFromLLOCache is complete: an accepted request was computed without any wrap *)
+Lemma llo_guard_complete_proof size e a :
+  1 <= size < W64 -> 0 <= e <= 63 ->
+  llo_alloc_size size (2 ^ e) = Some a ->
+  size + mal_headersSize + 2 ^ e < W64 /\ size + mal_headersSize + 2 ^ e <= a < W64.
+Proof.
+  intros Hs He H. unfold llo_alloc_size in H.
+  assert (Hal : 1 <= 2 ^ e <= 2 ^ 63).
+  { split; [assert (0 < 2 ^ e) by (apply Z.pow_pos_nonneg; lia); lia|apply Z.pow_le_mono_r; lia]. }
+  change mal_headersSize with 104 in *.
+  replace (size + 104 + 2 ^ e) with (size + (104 + 2 ^ e)) in * by lia.
+  destruct (align_to_bin (w64 (size + (104 + 2 ^ e))) <? size) eqn:Eg; [discriminate|]. inv H.
+  apply atb_guard; auto. lia.
+Qed.
+
+(* Backend::remap (realloc of a large block through mremap): the region request is computed from
+   alignToBin(newSize + userOffset); [check_new] is the added test `alignedSize < newSize` *)
+Definition remap_request (check_new : bool) (user_offset new_size hdr last gran : Z) : option Z :=
+  let aligned := align_to_bin (w64 (new_size + user_offset)) in
+  let req := w64 (align_up (w64 (hdr + aligned + last)) gran) in
+  if (check_new && (aligned <? new_size)) || (req <? aligned) then None else Some req.
+
+Lemma remap_guard_complete_proof new_size off hdr last g req :
+  1 <= new_size < W64 -> 0 <= off <= 2 ^ 32 -> 0 <= hdr <= 4096 -> 0 <= last <= 4096 -> 12 <= g <= 30 ->
+  remap_request true off new_size hdr last (2 ^ g) = Some req ->
+  new_size + off < W64 /\ new_size + off <= align_to_bin (w64 (new_size + off)) /\
+  hdr + align_to_bin (w64 (new_size + off)) + last <= req < W64.
+Proof.
+  intros Hn Ho Hh Hl Hg H. unfold remap_request in H. cbn [andb] in H.
+  set (aligned := align_to_bin (w64 (new_size + off))) in *.
+  destruct (aligned <? new_size) eqn:E1; [discriminate|]. cbn [orb] in H.
+  destruct (atb_guard new_size off Hn ltac:(lia) E1) as (Hs & Ha1 & Ha2). fold aligned in Ha1, Ha2.
+  set (req0 := w64 (align_up (w64 (hdr + aligned + last)) (2 ^ g))) in *.
+  destruct (req0 <? aligned) eqn:E2; [discriminate|]. inv H.
+  repeat split; auto; try lia.
+  - (* no wrap in hdr + aligned + last, nor in the rounding to the granularity *)
+    change W64 with (2 ^ 64) in *. unfold req0, w64 in *. change W64 with (2 ^ 64) in *.
+    assert (Hgp : 0 < 2 ^ g) by (apply Z.pow_pos_nonneg; lia).
+    assert (Hg30 : 2 ^ g <= 2 ^ 30) by (apply Z.pow_le_mono_r; lia).
+    set (T := hdr + aligned + last) in *.
+    destruct (Z_lt_le_dec T (2 ^ 64)) as [Ht|Ht].
+    + rewrite (Z.mod_small T) in E2 |- * by lia.
+      destruct (align_up_spec T (2 ^ g) Hgp) as [(Hu1 & Hu2) Hu3].
+      destruct (Z_lt_le_dec (align_up T (2 ^ g)) (2 ^ 64)) as [Hok|Hbad].
+      * rewrite Z.mod_small by lia. lia.
+      * exfalso. assert (Hdiv : (2 ^ g | 2 ^ 64)).
+        { exists (2 ^ (64 - g)). rewrite <- Z.pow_add_r by lia. f_equal. lia. }
+        assert (Heq : align_up T (2 ^ g) = 2 ^ 64).
+        { apply Z.le_antisymm; [|lia]. apply (multiple_le (2 ^ g)); [lia|exact Hu3|apply Z.mod_divide; [lia|exact Hdiv]|lia]. }
+        rewrite Heq, Z.mod_same in E2 by lia. lia.
+    + exfalso. assert (HT2 : T mod 2 ^ 64 = T - 2 ^ 64) by (symmetry; apply Z.mod_unique with (q := 1); lia).
+      rewrite HT2 in E2.
+      destruct (align_up_spec (T - 2 ^ 64) (2 ^ g) Hgp) as [(Hu1 & Hu2) Hu3].
+      rewrite Z.mod_small in E2 by lia. lia.
+  - change W64 with (2 ^ 64). unfold req0, w64. apply Z.mod_pos_bound. reflexivity.
+Qed.
+
+Lemma remap_old_check_refuted_proof :
+  exists off new_size req, 1 <= new_size < W64 /\ W64 <= new_size + off /\
+    remap_request false off new_size 64 64 4096 = Some req /\ req < new_size.
+Proof. exists 4160, (2 ^ 64 - 1), 12288. vm_compute. repeat split; congruence. Qed.
 
 (* ---------- Prop-level restatements of the sweeps ---------- *)
 Lemma size_classes_sound_proof s :
